@@ -118,28 +118,33 @@ theorem C04_validator_terminates (song : Song) (root : List Event)
 
 /-- **End of track.** At an `END` with an empty stack the player resumes at the loop point exactly
 when there is one, time has passed since it was set (`play_time ≠ loop_play_time`, both taken
-after the pending on/off time has been added), and the loop hook agrees; in that case the loop
+after the pending on/off time has been added) and since the last jump back
+(`play_time ≠ last_loop_jump_time`, repository fix 20edf98: a loop section that takes no time ends
+the track), and the loop hook agrees; in that case the loop
 count goes up by one and nothing is emitted; otherwise the player is disabled and the end hook
 runs. -/
 theorem C04_end_loops_iff_time_passed (lh : Bool) (a : Acc) (pos : Nat) (c' : Core) (f : Event) :
     let t : Nat := a.playTime + a.onTime + a.offTime
-    let back : Prop := a.loopPosition ≠ -1 ∧ (t : Int) ≠ a.loopPlayTime ∧ lh = true
+    let back : Prop := a.loopPosition ≠ -1 ∧ (t : Int) ≠ a.loopPlayTime ∧ (t : Int) ≠ a.lastLoopJump ∧ lh = true
     (back → (accStep lh a pos c' (.rootEnd f)).2.1.position = a.loopPosition.toNat ∧
             (accStep lh a pos c' (.rootEnd f)).2.2 = .nothing ∧
             (accStep lh a pos c' (.rootEnd f)).1.enabled = a.enabled ∧
-            (accStep lh a pos c' (.rootEnd f)).1.loopCount = a.loopCount + 1) ∧
+            (accStep lh a pos c' (.rootEnd f)).1.loopCount = a.loopCount + 1 ∧
+            (accStep lh a pos c' (.rootEnd f)).1.lastLoopJump = t) ∧
     (¬ back → (accStep lh a pos c' (.rootEnd f)).2.2 = .finish ∧
               (accStep lh a pos c' (.rootEnd f)).1.enabled = false ∧
               (accStep lh a pos c' (.rootEnd f)).2.1 = c') := by
   intro t back
   constructor
   · intro hb
-    have hb' : a.loopPosition ≠ -1 ∧ ((a.playTime + a.onTime + a.offTime : Nat) : Int) ≠ a.loopPlayTime ∧ lh = true := hb
+    have hb' : a.loopPosition ≠ -1 ∧ ((a.playTime + a.onTime + a.offTime : Nat) : Int) ≠ a.loopPlayTime ∧
+        ((a.playTime + a.onTime + a.offTime : Nat) : Int) ≠ a.lastLoopJump ∧ lh = true := hb
     simp only [accStep, Out.fetched]
     rw [if_pos (by simpa using hb')]
-    exact ⟨rfl, rfl, rfl, rfl⟩
+    exact ⟨rfl, rfl, rfl, rfl, rfl⟩
   · intro hb
-    have hb' : ¬ (a.loopPosition ≠ -1 ∧ ((a.playTime + a.onTime + a.offTime : Nat) : Int) ≠ a.loopPlayTime ∧ lh = true) := hb
+    have hb' : ¬ (a.loopPosition ≠ -1 ∧ ((a.playTime + a.onTime + a.offTime : Nat) : Int) ≠ a.loopPlayTime ∧
+        ((a.playTime + a.onTime + a.offTime : Nat) : Int) ≠ a.lastLoopJump ∧ lh = true) := hb
     simp only [accStep, Out.fetched]
     rw [if_neg (by simpa using hb')]
     exact ⟨rfl, rfl, rfl⟩
